@@ -284,6 +284,10 @@ func (r *Reader) writeSwap() {
 
 // Range iterates over parts of the buffer which match the specified chunk.
 func (r *Reader) Range(buf *Buffer, chunk Chunk, fn func(*Reader)) {
+	// The delegate may append to the buffer (a swapped value of another size is queued at its
+	// end): this pass ends where the buffer ended when it began, whatever is appended
+	// meanwhile is for the passes which follow.
+	end, sections := uint32(len(buf.buffer)), len(buf.chunks)
 	for i, c := range buf.chunks {
 		if c.Chunk != chunk {
 			continue // Not the right chunk, skip it
@@ -291,8 +295,8 @@ func (r *Reader) Range(buf *Buffer, chunk Chunk, fn func(*Reader)) {
 
 		// Find the next offset
 		r.x0 = uint32(c.Start)
-		r.x1 = uint32(len(buf.buffer))
-		if len(buf.chunks) > i+1 {
+		r.x1 = end
+		if sections > i+1 {
 			r.x1 = uint32(buf.chunks[i+1].Start)
 		}
 
